@@ -95,6 +95,7 @@ type case = {
   id : string; tag : string; header : string;
   layout : mapping list; layout_lines : string list;
   recs : rrec array; out : string; unread : int;
+  rm : (int, event list) Hashtbl.t;   (* record index of a read -> what the REAL mapper returned for it *)
 }
 
 let parse_call (t : string array) (i : int ref) : call =
@@ -138,6 +139,7 @@ let read_case (ic : in_channel) : case option =
   | Some hdr ->
     let ht = split_ws hdr in
     let maps = ref [] and mlines = ref [] and recs = ref [] and out = ref "" and unread = ref 0 in
+    let rm = Hashtbl.create 16 in
     let fin = ref false in
     while not !fin do
       let l = input_line ic in
@@ -153,13 +155,16 @@ let read_case (ic : in_channel) : case option =
           incr i;
           let r = parse_resp c t i in
           recs := { call = c; resp = r; enter; exit_ } :: !recs
+        | "RM" ->
+          let idx = int_of_string t.(1) and n = int_of_string t.(2) in
+          Hashtbl.replace rm idx (List.init n (fun k -> ev_of_tok t.(3 + k)))
         | "OUT" -> out := String.concat " " (List.tl (Array.to_list t))
         | "UNREAD" -> unread := int_of_string t.(1)
         | "END" -> fin := true
         | _ -> ()
     done;
     Some { id = ht.(1); tag = ht.(2); header = hdr; layout = List.rev !maps; layout_lines = List.rev !mlines;
-           recs = Array.of_list (List.rev !recs); out = !out; unread = !unread }
+           recs = Array.of_list (List.rev !recs); out = !out; unread = !unread; rm }
 
 (* ---------- printing ---------- *)
 
@@ -345,12 +350,32 @@ let check_case (c : case) (findings : Buffer.t) : int * int * bool =
           te_lo = z_of_int (win_lo j); te_hi = z_of_int (win_hi j) }) answered in
     let hits = x_check_transcript c.layout (z_of_int tol_ns) tr in
     let seen = Hashtbl.create 8 in
+    (* a send that differs from the MODEL mapper's step output but is exactly what the REAL mapper returned for the
+       read before it (RM lines; or no send where the real mapper returned nothing): the loop transported its mapper
+       faithfully, the mapper differs from its model - the mapper engine's business, reported here as a difference
+       of class MAPPER_MODEL (which no loop property observes), not as a failure of C10 / C12 *)
+    let transported (j : int) : bool =
+      let observed = (match c.recs.(j).call with CSend evs -> evs | _ -> []) in
+      let rec last_read i = if i < 0 then None else if Hashtbl.mem c.rm i then Some i else
+          (match c.recs.(i).call with CSend _ -> last_read (i - 1) | _ -> if i = j then last_read (i - 1) else None) in
+      (match last_read (j - 1) with
+       | Some i -> Hashtbl.find c.rm i = observed
+       | None -> false) in
     List.iter (fun (idx, cl) ->
         let name = clause_name cl in
+        let j = int_of_n idx in
+        if (cl = L_C10_sends || cl = L_C12_off_fresh) && j < Array.length c.recs && transported j then begin
+          if not (Hashtbl.mem seen ("MM" ^ name)) then begin
+            Hashtbl.add seen ("MM" ^ name) ();
+            define ();
+            Buffer.add_string findings
+              (Printf.sprintf "DIFF case=%s class=MAPPER_MODEL at=%d impl=%s model=%s_expected_by_the_model_mapper(the_loop_wrote_what_the_real_mapper_returned)\n"
+                 c.id j (call_str c.recs.(j).call) name)
+          end
+        end else
         if not (Hashtbl.mem seen name) then begin
           Hashtbl.add seen name ();
           define ();
-          let j = int_of_n idx in
           let r = c.recs.(j) in
           Buffer.add_string findings
             (Printf.sprintf "MONITOR case=%s clause=%s index=%d observed=%s=>%s\n" c.id name j (call_str r.call) (resp_str r.resp))
@@ -474,14 +499,33 @@ let check_case (c : case) (findings : Buffer.t) : int * int * bool =
     let out_i_s = outcome_str real_out in
     if div = None && out_m_s <> out_i_s then diff "OUTCOME" (n - 1) c.out out_m_s;
     (* per-property observations *)
-    let real_ents : ent list = Array.to_list (Array.map (fun r -> (r.call, r.resp)) c.recs) in
+    (* the payload of a send that directly follows a read is abstracted to "what the mapper returned for that read"
+       when it is exactly that (real side: the RM lines of the real Mapper; model side: always, by
+       C10_step_output_sent_at_once): the loop observations then do not depend on the mapper's choice of event order
+       inside a batch, which is the mapper properties' business (mapper engine) *)
+    let marker = [ Pressed N0 ] in
+    let real_ents : ent list = Array.to_list (Array.mapi (fun j r ->
+        (match r.call with
+         | CSend evs when j > 0 && evs <> [] && Hashtbl.mem c.rm (j - 1) && Hashtbl.find c.rm (j - 1) = evs -> (CSend marker, r.resp)
+         | _ -> (r.call, r.resp))) c.recs) in
     let model_ents : ent list =
       let rec zip cs rs =
         match cs, rs with
         | [], _ -> []
         | c :: cs', [] -> (c, None) :: zip cs' []
         | c :: cs', r :: rs' -> (c, Some r) :: zip cs' rs' in
-      List.filter (fun (c, _) -> match c with CNow | CSleep _ -> false | _ -> true) (zip calls_m rs) in
+      let l = List.filter (fun (c, _) -> match c with CNow | CSleep _ -> false | _ -> true) (zip calls_m rs) in
+      let rec abs prev l =
+        match l with
+        | [] -> []
+        | ((CSend evs, r) as _x) :: t when evs <> [] && prev -> (CSend marker, r) :: abs false t
+        | ((cl, r) as x) :: t ->
+          let is_read = (match cl, r with
+              | CNextKbd, Some (RKbd (NOne _)) -> true
+              | CNextTab, Some (RTab (NOne _)) -> true
+              | _, _ -> false) in
+          x :: abs is_read t in
+      abs false l in
     let rec cut (k : int) (l : ent list) : ent list =
       match l with
       | [] -> []
